@@ -59,7 +59,7 @@ WellFormed(r) ==
   /\ Len(r.plan) >= 1
   \* edits are on pairwise incomparable paths
   /\ \A e1, e2 \in Rng(r.in.edits) : e1 # e2 => ~Comparable(e1.path, e2.path)
-  /\ \A e \in Rng(r.in.edits) : e.op \in FileOps \cup LinkOps \cup DirOps \cup {"stale", "newchild", "createfile", "createlink", "createdir"}
+  /\ \A e \in Rng(r.in.edits) : e.op \in FileOps \cup LinkOps \cup DirOps \cup {"stale", "newchild", "createfile", "createlink", "createdir", "createfifo"}
   /\ r.pre.k # "walkerr" /\ r.post.k # "walkerr"
 
 RecFails(i, r) ==
@@ -70,6 +70,7 @@ RecFails(i, r) ==
     \o Chk(Want, i, "C09_ResultsMatchWalker", C09_ResultsExact(r.plan, r.results, Plain(r.post)))
     \o Chk(Want, i, "C08_ModifiedSurvives", C08_ModifiedSurvives(EditPaths(r), r.pre, r.post))
     \o Chk(Want, i, "C08_ModifiedReported", C08_ModifiedReported(EditPaths(r), r.plan, ProblemPaths(r), r.pre))
+    \o Chk(Want, i, "C03_UntrackedOnDiskUntouched", r.pre.k # "notrecorded" => C03_UntrackedOnDiskUntouched(r.plan, r.pre, r.post))
     \o Chk(Want, i, "C08_OutsidePlanUntouched", r.pre.k # "notrecorded" => C08_OutsidePlanUntouched(r.plan, r.pre, r.post))
 
 \* ---------------------------------------------------------- conformance
